@@ -9,19 +9,19 @@ AREA = "lex"
 
 
 # ------------------------------------------------------------------ TLC
-def tlc_utf(ctx, out):
+def tlc_jobs(ctx, out):
+    """LitUtf (table generation) and LitPhase model checks + their sensitivity controls, as independent jobs"""
     q = ctx.quick
-    c11.tlc_gen(ctx, "LitUtf", "LitUtf.cfg", out, "UTF-8/UTF-16 codec or Annex D tables: Level I (unicode.c) differs from Level A",
-                workers=2 if q else 4, Mode='"edges"' if q else '"all"', Seed=ctx.seed, NSample=400, Emit=True)
-    for v in ("enc-7ff", "ident-hole"):
-        c11.control(ctx, "LitUtf", "LitUtf.cfg", v, NSample=1)
-
-
-def tlc_phase(ctx):
-    cfg = ctx.cfg(AREA, "LitPhase.cfg", MaxLen=5 if ctx.quick else 7)
-    ctx.tlc_expect_ok(AREA, "LitPhase", cfg, "phases 1-2: tokenize_file's passes (Level I) differ from 5.1.1.2 (Level A)", workers=2, heap="2g")
-    c11.control(ctx, "LitPhase", "LitPhase.cfg", "crlf-double", MaxLen=4)
-    c11.control(ctx, "LitPhase", "LitPhase.cfg", "no-bom", MaxLen=2)
+    return [
+        lambda: c11.tlc_gen(ctx, "LitUtf", "LitUtf.cfg", out, "UTF-8/UTF-16 codec or Annex D tables: Level I (unicode.c) differs from Level A",
+                            workers=2 if q else 4, Mode='"edges"' if q else '"all"', Seed=ctx.seed % 100003, NSample=400, Emit=True),
+        lambda: c11.control(ctx, "LitUtf", "LitUtf.cfg", "enc-7ff", NSample=1),
+        lambda: c11.control(ctx, "LitUtf", "LitUtf.cfg", "ident-hole", NSample=1),
+        lambda: ctx.tlc_expect_ok(AREA, "LitPhase", ctx.cfg(AREA, "LitPhase.cfg", MaxLen=5 if q else 7),
+                                  "phases 1-2: tokenize_file's passes (Level I) differ from 5.1.1.2 (Level A)", workers=2, heap="2g"),
+        lambda: c11.control(ctx, "LitPhase", "LitPhase.cfg", "crlf-double", MaxLen=4),
+        lambda: c11.control(ctx, "LitPhase", "LitPhase.cfg", "no-bom", MaxLen=2),
+    ]
 
 
 # ------------------------------------------------------------------ table
@@ -75,7 +75,7 @@ def build_uc(ctx, tree):
 def run_uc(ctx, tree, table_text, nrows):
     """unicode.c of the tree against the table: every row is one case"""
     exe = build_uc(ctx, tree)
-    p = vt.run_limited([exe], timeout=600, mem_gb=2, input=table_text)
+    p = vt.run_limited([exe], timeout=600, mem_gb=2, input=table_text, errors="replace")
     done = [l for l in p.stdout.splitlines() if l.startswith("DONE ")]
     if p.returncode != 0 or not done:
         ctx.report("uc:harness-aborted", "unicode.c harness rc=%s: %s" % (p.returncode, (p.stdout[-300:] + p.stderr[-300:])),
@@ -207,10 +207,10 @@ def run_neg(ctx, tree, cases):
         i, c = t
         f = "%s/n%d.c" % (d, i)
         open(f, "wb").write(bytes(c["src"]))
-        p = vt.run_limited([tree + "/chibicc", "-S", "-o", "/dev/null", f], timeout=30, mem_gb=2)
+        p = vt.run_limited([tree + "/chibicc", "-S", "-o", "/dev/null", f], timeout=30, mem_gb=2, errors="replace")
         g = None
         if p.returncode == 0:
-            g = vt.sh(["gcc", "-std=gnu11", "-finput-charset=UTF-8", "-S", "-o", "/dev/null", f], timeout=30).returncode
+            g = vt.sh(["gcc", "-std=gnu11", "-finput-charset=UTF-8", "-S", "-o", "/dev/null", f], timeout=30, errors="replace").returncode
         return c, p.returncode, g
     for c, rc, g in vt.pmap(one, list(enumerate(cases)), workers=8):
         ctx.note_case("neg-ident:%s:%s:%d" % (c["pos"], c["spell"], c["c"]))
